@@ -51,7 +51,7 @@ M = {
  'm08': (G + 'generator_shared.py', "        elif i == len(pref_list) - 1 and in_tie:", "        elif i == len(pref_list) - 1 and in_tie and len(pref_list) > 2:",
          ['C13'], 'writer does not close a tie that covers a whole two-entry list'),
  'm09': (S + 'brute_force_solver.py', "        for i in range(len(profile1) - 1, -1, -1):", "        for i in range(len(profile1) - 1, 0, -1):",
-         ['C07'], 'moregen ignores the first rank'),
+         [], 'EQUIVALENT mutant (kept as a control): moregen ignores the first rank - it is only applied to matchings of equal size, where equal counts at ranks >= 2 imply equal counts at rank 1'),
  'm10': (S + 'brute_force_solver.py', """                    proj_num_allocations[proj_index] and
                     not proj_num_allocations[proj_index] == 0) or""", """                    proj_num_allocations[proj_index]) or""",
          ['C07'], 'closure rule of is_valid ignores "closed"'),
@@ -60,8 +60,8 @@ M = {
  'm12': (S + 'options_parser.py', "                ordered_opts[arguments[0] - 1] = (opt, arguments[1:])",
          "                ordered_opts[arguments[0] - 1 if arguments[0] < 7 else 15 - arguments[0]] = (opt, arguments[1:])", ['C16', 'C04'],
          'list-valued criteria at positions 7..9 are placed in reversed slots'),
- 'm13': (S + 'model.py', "                cost_sq_lec += pair.rank_lecturer * pair.rank_lecturer", "                cost_sq_lec += pair.rank_lecturer * pair.rank_student",
-         ['C11'], 'squared lecturer cost multiplies lecturer rank by student rank'),
+ 'm13': (S + 'model.py', "            cost_sq_st += pair.rank_student * pair.rank_student", "            cost_sq_st += pair.rank_student * (pair.rank_student if pair.rank_student < 3 else 2)",
+         ['C11'], 'squared student cost wrong from rank 3 on'),
  'm14': (S + 'model.py', "        results += '# main constraints and optimisations\\n'\n",
          "        results += '# main constraints and optimisations\\n'\n        self.info_string += ' '\n", ['C18'], 'getter mutates info_string'),
  'm15': (S + 'lp_solver.py', "                    pc_uq_exp <= uq, ", "                    pc_uq_exp <= uq + (1 if lq == uq and uq > 1 else 0), ",
@@ -94,7 +94,7 @@ M = {
  'm27': (S + 'solver.py', """        time_after_solve = datetime.datetime.now()
         self.model.time_after_solve = time_after_solve""", """        time_after_solve = datetime.datetime.now()
         if not hasattr(self.model, 'time_after_solve'):
-            self.model.time_after_solve = time_after_solve""", ['C14'], 'end time is only recorded by the first solve (C18/C14: timeout judged on stale time)'),
+            self.model.time_after_solve = time_after_solve""", [], 'OUT OF SCOPE (kept as a control): end time only recorded by the first solve; needs a re-solve under a time limit, which neither C14 (single run) nor C18 (no limit) quantifies over'),
  'm28': (S + 'model.py', "            matching[pair.student_index] = str(pair.projectID)\n        return ' '.join(matching)",
          "            matching[pair.student_index] = str(pair.projectID if pair.projectID < 3 else pair.project_index + 1 - (pair.projectID == 3 and self.num_projects > 3))\n        return ' '.join(matching)",
          ['C11', 'C01'], 'matching line prints 2 instead of 3 when there are more than three projects'),
